@@ -41,7 +41,9 @@ def generate(seed, tier):
             add('C05|write1d-map|%s|N=%d' % (tk, n), 'VP_CASE("@KEY@", vp::c05::write1d_map<%s,%d>);' % (tn, n))
     for (M, N) in [(7, 9), (5, 17), (12, 20)] + ([] if quick else [(3, 3), (8, 8), (16, 4)]):
         mn = [(m, n) for m in range(1, M + 1) for n in range(1, N + 1)]
-        for (m, n) in rnd.sample(mn, min(len(mn), 5 if quick else 30)):
+        # (the views take a vector branch at run time when the last range is contiguous and a whole number of vectors long: two extra cases per parent fix n to such a length)
+        vec_n = [(rnd.randrange(1, M + 1), n) for n in (2, 4, 8, 16) if n <= N]
+        for (m, n) in rnd.sample(mn, min(len(mn), 5 if quick else 30)) + (rnd.sample(vec_n, min(2, len(vec_n))) if quick else vec_n):
             tn, tk = ty()
             add('C05|write2d|%s|%dx%d|%dx%d' % (tk, M, N, m, n), 'VP_CASE("@KEY@", vp::c05::write2d<%s,%d,%d,%d,%d>);' % (tn, M, N, m, n))
         for (m, n) in rnd.sample(mn, 1 if quick else 4):
